@@ -104,6 +104,10 @@ class Check:
         src = os.path.join(SPEC, specdir)
         dst = os.path.join(self.tmp, "tlc_%s_%d" % (specdir.replace("/", "_"), len(self.cov["tlc_runs"])))
         shutil.copytree(src, dst)
+        common = os.path.join(SPEC, "common")
+        for f in os.listdir(common):
+            if not os.path.exists(os.path.join(dst, f)):
+                shutil.copy(os.path.join(common, f), dst)
         cmd = ["java", "-XX:+UseParallelGC"]
         if heap:
             cmd.append("-Xmx%s" % heap)
@@ -171,6 +175,20 @@ class Check:
         if "no tests to run" in out:
             raise Infra("dead driver: no test matched %s in %s" % (run, pkg))
         return p.returncode, out, time.time() - t
+
+    def write_lines(self, name, rows):
+        path = os.path.join(self.tmp, name)
+        with open(path, "w") as f:
+            for r in rows:
+                f.write(json.dumps(r) + "\n")
+        return path
+
+    def run_driver(self, pkg, run, env, what=None, timeout=1200):
+        """go test that must succeed (its verdicts are in the result file, not in the exit code)"""
+        rc, txt, wall = self.go_test(pkg, run, env=env, timeout=timeout)
+        if rc != 0:
+            raise Infra("%s %s failed (driver error, not a verdict):\n%s" % (pkg, run, txt[-4000:]))
+        return txt
 
     def read_result(self, path):
         if not os.path.exists(path):
